@@ -163,8 +163,15 @@ func (c *CoqFile) Merged(s *ast.Schema) string {
 		}
 		return "[" + strings.Join(parts, "; ") + "]"
 	}
+	root := func(d *ast.Definition) string {
+		if d == nil {
+			return ""
+		}
+		return d.Name
+	}
 	return "{| m_types := [" + strings.Join(defs, ";\n  ") + "]; m_dirs := [" + strings.Join(dirs, ";\n  ") + "];\n  m_possible := " +
-		nameLists(s.PossibleTypes) + "; m_implements := " + nameLists(s.Implements) + " |}"
+		nameLists(s.PossibleTypes) + "; m_implements := " + nameLists(s.Implements) + ";\n  m_roots := " +
+		c.Strs([]string{root(s.Query), root(s.Mutation), root(s.Subscription)}) + " |}"
 }
 
 func (c *CoqFile) URLMapOrdered(m gateway.FieldURLMap) string { return c.URLMap(m) }
